@@ -51,3 +51,14 @@ package sub
 //@   ensures name == protocol.OptionRecvDeadline ==> isnil(result1) && result0 == iface(c.recvExpire)
 //@
 // ---- end generated option contracts ----
+//@
+//@ func (*context).SendMsg
+//@   modifies none
+//@   ensures result == protocol.ErrProtoOp
+//@
+//@ func (*socket).SendMsg
+//@   modifies none
+//@   ensures result == protocol.ErrProtoOp
+//@
+//@ func (*context).RecvMsg
+//@   ensures isnil(result1) ==> result0 != nil
